@@ -683,6 +683,13 @@ func faultSweep(scratch string, jb *job, emit func(rec map[string]any, nontrivia
 			emit(r, r["fired"].(bool), false, false)
 		}
 	}
+	// content inside a directory that the plan removes disappears between scan
+	// and transition (no injected event): results must still be exact
+	for _, p := range deletableInside(tc) {
+		cp := *tc
+		cp.Edits = []edit{{Op: "delete", Path: p}}
+		emit(runCase(scratch, withFault(&cp, "none", 0)), true, false, false)
+	}
 	// staged files missing from the start: each single file, and all of them
 	for _, f := range staged {
 		cp := *tc
@@ -694,6 +701,27 @@ func faultSweep(scratch string, jb *job, emit func(rec map[string]any, nontrivia
 		cp.Mode.Missing = staged
 		emit(runCase(scratch, withFault(&cp, "none", 0)), true, false, false)
 	}
+}
+
+// deletableInside lists the proper descendants of directories the plan removes.
+func deletableInside(tc *tCase) [][]string {
+	var out [][]string
+	for _, ch := range planFor("", tc.Tree0, tc.Target) {
+		if ch.Old == nil || ch.Old.Kind != core.EntryKind_Directory {
+			continue
+		}
+		base := vtree.Path(ch.Path)
+		var rec func(prefix []string, e *core.Entry)
+		rec = func(prefix []string, e *core.Entry) {
+			for _, n := range vtree.SortedNames(e) {
+				p := append(append([]string{}, prefix...), n)
+				out = append(out, p)
+				rec(p, e.Contents[n])
+			}
+		}
+		rec(base, ch.Old)
+	}
+	return out
 }
 
 func stagedFilesOf(tc *tCase) []string {
@@ -721,26 +749,49 @@ func stagedFilesOf(tc *tCase) []string {
 	return out
 }
 
+// argInt reads "name=value" from the driver arguments.
+func argInt(c *vlib.Ctx, name string, def int) int {
+	for _, a := range c.Args {
+		if strings.HasPrefix(a, name+"=") {
+			var v int
+			if _, err := fmt.Sscanf(a[len(name)+1:], "%d", &v); err == nil {
+				return v
+			}
+		}
+	}
+	return def
+}
+
 func runFaults(c *vlib.Ctx) error {
-	shapes := []string{"small"}
-	nRandom := 10
-	cancelStride, vanishStride := 5, 6
+	// shape -> every n-th case of the shape is swept (1 = all)
+	type sh struct {
+		name  string
+		every int
+	}
+	shapes := []sh{{"small", 1}}
+	nRandom := argInt(c, "rand", 10)
+	cancelStride, vanishStride := argInt(c, "cancel", 6), argInt(c, "vanish", 8)
 	if c.Thorough() {
-		shapes = []string{"small", "wide", "two", "spine"}
-		nRandom = 600
-		cancelStride, vanishStride = 1, 1
+		shapes = []sh{{"small", 1}, {"wide", 1}, {"spine", 1}, {"two", argInt(c, "two", 6)}}
+		nRandom = argInt(c, "rand", 200)
+		cancelStride, vanishStride = argInt(c, "cancel", 2), argInt(c, "vanish", 2)
 	}
 	var jobs []*job
 	total := 0
 	add := func(tc *tCase) {
 		jobs = append(jobs, &job{Kind: "sweep", In: tc.in(), CancelStride: cancelStride, VanishStride: vanishStride, Off: c.Rand.Intn(1 << 20)})
 	}
+	var names []string
 	for _, sh := range shapes {
-		cases := baseCases(sh)
-		total += len(cases)
-		for _, tc := range cases {
-			add(tc)
+		cases := baseCases(sh.name)
+		off := c.Rand.Intn(sh.every)
+		for i, tc := range cases {
+			if (i+off)%sh.every == 0 {
+				add(tc)
+				total++
+			}
 		}
+		names = append(names, fmt.Sprintf("%s(1/%d of %d)", sh.name, sh.every, len(cases)))
 	}
 	for i := 0; i < nRandom; i++ {
 		add(randomCase(c))
@@ -748,7 +799,7 @@ func runFaults(c *vlib.Ctx) error {
 	runJobs(c, jobs)
 	c.SetExhaustive(true)
 	c.SetExtra("shape_cases", total)
-	c.SetExtra("bound", fmt.Sprintf("shapes %v: every (disk tree, target tree, exdev, owner) of FSTransition.tla's Init x every primitive index (error; cancel every %d-th, vanish every %d-th index) x missing staged files; %d random trees (<= 4 levels)", shapes, cancelStride, vanishStride, nRandom))
+	c.SetExtra("bound", fmt.Sprintf("shapes %v: (disk tree, target tree, exdev, owner) cases of FSTransition.tla's Init x every primitive index (error at every index; cancel at every %d-th, vanish at every %d-th index) x missing staged files; %d random trees (<= 4 levels)", names, cancelStride, vanishStride, nRandom))
 	return nil
 }
 
@@ -845,34 +896,46 @@ func editJob(c *vlib.Ctx, tc *tCase, es []edit) *job {
 }
 
 func runEdits(c *vlib.Ctx) error {
-	shapes := []string{"edit", "small"}
-	nRandom := 150
-	pairEvery := 0
+	type sh struct {
+		name  string
+		every int  // every n-th case gets its single edits
+		pairs bool // also pairs of edits on incomparable paths
+	}
+	shapes := []sh{{"edit", 1, false}, {"small", 1, false}}
+	nRandom := argInt(c, "rand", 150)
 	if c.Thorough() {
-		shapes = []string{"edit", "small", "wide", "two"}
-		nRandom = 4000
-		pairEvery = 3
+		shapes = []sh{{"edit", 1, true}, {"small", 1, true}, {"wide", 1, false}, {"two", argInt(c, "two", 8), false}}
+		nRandom = argInt(c, "rand", 3000)
 	}
 	var jobs []*job
+	var names []string
 	for _, sh := range shapes {
-		for _, tc := range baseCases(sh) {
+		cases := baseCases(sh.name)
+		off := c.Rand.Intn(sh.every)
+		n := 0
+		for _, tc := range cases {
 			if tc.Mode.Exdev || tc.Mode.Owner {
+				continue
+			}
+			n++
+			if (n+off)%sh.every != 0 {
 				continue
 			}
 			es := editsFor(tc)
 			for _, e := range es {
 				jobs = append(jobs, editJob(c, tc, []edit{e}))
 			}
-			if pairEvery > 0 {
+			if sh.pairs {
 				for i := 0; i < len(es); i++ {
 					for j := i + 1; j < len(es); j++ {
-						if !comparable(es[i].Path, es[j].Path) && (i+j)%pairEvery == 0 {
+						if !comparable(es[i].Path, es[j].Path) && (i+j)%3 == 0 {
 							jobs = append(jobs, editJob(c, tc, []edit{es[i], es[j]}))
 						}
 					}
 				}
 			}
 		}
+		names = append(names, fmt.Sprintf("%s(1/%d of %d, pairs=%v)", sh.name, sh.every, n, sh.pairs))
 	}
 	for i := 0; i < nRandom; i++ {
 		tc := randomCase(c)
@@ -899,7 +962,7 @@ func runEdits(c *vlib.Ctx) error {
 	}
 	runJobs(c, jobs)
 	c.SetExhaustive(true)
-	c.SetExtra("bound", fmt.Sprintf("shapes %v: every (disk tree, target tree) x every single edit kind at every node (+ pairs in thorough); %d random trees with up to 3 edits", shapes, nRandom))
+	c.SetExtra("bound", fmt.Sprintf("shapes %v: (disk tree, target tree) cases x every single edit kind at every node (+ every third pair where stated); %d random trees with up to 3 edits", names, nRandom))
 	return nil
 }
 
